@@ -34,5 +34,5 @@ h\
 i"" ${X
 Y} k")%string in
   let '(toks, e, st, p, d) := lex_all [] 100 (scan_begin lex_init txt) {| p_file := None; p_line := 1 |} [] [] in
-  (e, p_line p, 1 + count_nl txt)%N = (TEof, 8, 8)%N.
+  (e, p_line p, 1 + count_nl txt)%N = (TEof, 7, 7)%N.
 Proof. vm_compute. reflexivity. Qed.
